@@ -39,6 +39,11 @@ pub struct Step {
     pub fault: Option<Fault>,
     /// padding records in the directory zone (more = slower load)
     pub pad: u16,
+    /// a hosts "file" in the -A directory that is a FIFO without a writer:
+    /// the load blocks until the harness feeds it, and probes sent meanwhile
+    /// must be answered from the old configuration
+    #[serde(default)]
+    pub slow: bool,
 }
 
 #[derive(Debug, Clone, PartialEq, Eq, Hash, Serialize, Deserialize)]
@@ -207,6 +212,7 @@ impl Prop for Reloads {
                     None
                 },
                 pad: g.pick(&[0u16, 200, 2000, 6000]),
+                slow: g.chance(1, 4),
             })
             .collect();
         History { steps }
@@ -220,7 +226,7 @@ impl Prop for Reloads {
             return out.fail("harness-io", "cannot create the scratch configuration");
         }
         // version 0: a valid start configuration
-        let start = Step { extras: [true, false, false], hosts_extra: false, fault: None, pad: 0 };
+        let start = Step { extras: [true, false, false], hosts_extra: false, fault: None, pad: 0, slow: false };
         if let Err(e) = write_config(&l, 0, &start) {
             return out.fail("harness-io", e.to_string());
         }
@@ -239,6 +245,7 @@ impl Prop for Reloads {
         let mut good_ver = 0usize;
         let mut good_step = start.clone();
         let (mut n_fail, mut n_ok, mut during_total) = (0u32, 0u32, 0u64);
+        let mut slow_probes = 0u64;
 
         for (i, s) in h.steps.iter().enumerate() {
             let ver = i + 1;
@@ -261,8 +268,54 @@ impl Prop for Reloads {
                 }
             });
             std::thread::sleep(Duration::from_millis(3));
+            let fifo = l.hdir.join("50-slow.hosts");
+            let _ = std::fs::remove_file(&fifo);
+            if s.slow {
+                let c = std::ffi::CString::new(fifo.display().to_string()).unwrap();
+                if unsafe { libc::mkfifo(c.as_ptr(), 0o644) } != 0 {
+                    return out.fail("harness-io", "mkfifo failed");
+                }
+            }
             let t_signal = Instant::now();
             server.signal(libc::SIGUSR1);
+            if s.slow {
+                // the load is stuck on the FIFO (or has not reached it yet):
+                // the server must keep answering, from the old configuration
+                std::thread::sleep(Duration::from_millis(30));
+                for (k, (name, t)) in PROBES.iter().enumerate() {
+                    let r = udp_exchange(addr, &query(name, *t, 0x5000 + k as u16), Duration::from_secs(3)).ok().flatten();
+                    let Some(r) = r else {
+                        let _ = std::fs::remove_file(&fifo);
+                        return out.fail("unanswered-while-loading", format!("{name} got no reply within 3 s while reload {ver} was reading a slow file"));
+                    };
+                    let Ok(m) = rwire::decode(&r) else { return out.fail("reply-not-well-formed", format!("{name} during slow reload {ver}")) };
+                    let ms = markers(&m);
+                    if ms.is_empty() || ms.iter().any(|x| *x != good_ver) {
+                        let _ = std::fs::remove_file(&fifo);
+                        return out.fail("not-old-configuration-while-loading", format!("{name} during slow reload {ver}: versions {ms:?}, the configuration in force is {good_ver}"));
+                    }
+                    slow_probes += 1;
+                }
+                // now feed the FIFO (non-blocking open: ENXIO until the loader has opened it)
+                let deadline = Instant::now() + Duration::from_secs(20);
+                let mut fed = false;
+                while Instant::now() < deadline && server.alive() {
+                    use std::io::Write;
+                    use std::os::unix::fs::OpenOptionsExt;
+                    match std::fs::OpenOptions::new().write(true).custom_flags(libc::O_NONBLOCK).open(&fifo) {
+                        Ok(mut f) => {
+                            let _ = f.write_all(b"# slow file, nothing in it\n");
+                            fed = true;
+                            break;
+                        }
+                        Err(_) => std::thread::sleep(Duration::from_millis(5)),
+                    }
+                }
+                if !fed {
+                    let _ = std::fs::remove_file(&fifo);
+                    return out.fail("slow-file-never-opened", format!("the loader did not open the FIFO within 20 s in step {ver}"));
+                }
+            }
             // wait for the log line
             let mut outcome = None;
             while t_signal.elapsed() < Duration::from_secs(30) {
@@ -277,6 +330,7 @@ impl Prop for Reloads {
                 std::thread::sleep(Duration::from_millis(2));
             }
             let t_done = Instant::now();
+            let _ = std::fs::remove_file(&fifo);
             std::thread::sleep(Duration::from_millis(3));
             stop.store(true, Ordering::Relaxed);
             let _ = prober.join();
@@ -363,6 +417,10 @@ impl Prop for Reloads {
         out.counts.push(("reloads-succeeding", u64::from(n_ok)));
         out.counts.push(("reloads-failing", u64::from(n_fail)));
         out.counts.push(("replies-during-reload-window", during_total));
+        out.counts.push(("probes-answered-while-load-blocked", slow_probes));
+        if slow_probes > 0 {
+            out.classes.push("slow-reload".into());
+        }
         out.nontrivial = n_ok >= 1 && n_fail >= 1 && during_total >= 1;
         drop(server);
         out
